@@ -252,3 +252,18 @@ Proof.
   - exists p. split; [exact I | reflexivity].
 Qed.
 
+
+Lemma ex_error_classes_hyp :
+  let c := {| c_extra := [hp "x-int" VInt true; hp "kid" VInt false]; c_strict := true;
+              c_allowed := Some ["A128KW"%string] |} in
+  reg_known (c_extra c) = true /\ ~ In alg_name (reg_names (c_extra c)) /\
+  run_check RJws c false [(asc "alg", PStr (asc "HS256"))] = Err EValue /\
+  run_check (RJwe false) c true [(asc "alg", PStr (asc "dir")); (asc "enc", PStr (asc "A128GCM"));
+                                 (asc "x-int", PInt 1)] = Err (EJose UnsupportedAlgorithmError) /\
+  run_check (RJwe false) c true [(asc "alg", PStr (asc "A128KW")); (asc "enc", PStr (asc "A128GCM"));
+                                 (asc "x-int", PInt 1); (asc "kid", PInt 7)] = Ok tt.
+Proof.
+  cbv zeta. split; [vm_compute; reflexivity|]. split.
+  - vm_compute. intuition discriminate.
+  - vm_compute. repeat split; reflexivity.
+Qed.
